@@ -122,8 +122,19 @@ pub enum Ret {
 /// coincide with order ids; a base just below 2^32 makes them huge)
 pub static TRADER_BASE: std::sync::atomic::AtomicU32 = std::sync::atomic::AtomicU32::new(100);
 
+/// number of distinct traders: 0 = every order has its own trader, k > 0 = the n-th order belongs to
+/// trader TRADER_BASE + n % k (k = 1: one trader owns both sides of every trade)
+pub static TRADER_MOD: std::sync::atomic::AtomicU32 = std::sync::atomic::AtomicU32::new(0);
+
 pub fn trader_for(n_orders: usize) -> u32 {
-    TRADER_BASE.load(std::sync::atomic::Ordering::Relaxed).wrapping_add(n_orders as u32)
+    let k = TRADER_MOD.load(std::sync::atomic::Ordering::Relaxed);
+    let n = if k == 0 { n_orders as u32 } else { n_orders as u32 % k };
+    TRADER_BASE.load(std::sync::atomic::Ordering::Relaxed).wrapping_add(n)
+}
+
+pub fn set_traders(base: u32, modulus: u32) {
+    TRADER_BASE.store(base, std::sync::atomic::Ordering::Relaxed);
+    TRADER_MOD.store(modulus, std::sync::atomic::Ordering::Relaxed);
 }
 
 pub fn scratch_path() -> std::path::PathBuf {
@@ -369,6 +380,8 @@ pub struct Profile {
     pub id_window: usize,
     /// trader id of the n-th order = trader_base + n
     pub trader_base: u32,
+    /// number of distinct traders (0 = one per order; 1 = a single trader on both sides; 2 = two alternating)
+    pub trader_mod: u32,
     /// "read everything" offered as an operation of its own (histories are otherwise replayed
     /// without a single getter call between the operations)
     pub observe_op: bool,
@@ -402,6 +415,7 @@ impl Profile {
             set_time_dt: 2,
             id_window: usize::MAX,
             trader_base: 100,
+            trader_mod: 0,
             observe_op: false,
         }
     }
